@@ -5,7 +5,7 @@ import json, os, re, subprocess, sys
 ROOT = os.path.dirname(os.path.dirname(os.path.abspath(__file__)))
 prop, n, as_n, needs = sys.argv[1:5]
 also = sys.argv[5:]
-wt = f"/tmp/rt3/{prop}"
+wt = os.path.join(os.environ.get("RT_DIR", "/tmp/rt3"), prop)
 r = subprocess.run([sys.executable, os.path.join(ROOT, "tools", "keep_seed.py"), prop, n, wt, needs, "--as", as_n], capture_output=True, text=True)
 print(r.stdout.strip().splitlines()[-1] if r.stdout.strip() else r.stderr[-500:], flush=True)
 if r.returncode != 0:
@@ -17,7 +17,7 @@ for p in [prop] + also:
     v = re.search(r"MUTANT (\w+) rc (\d+)", m.stdout)
     out[p] = v.group(1) if v else "ERROR " + (m.stderr.strip().splitlines() or m.stdout.strip().splitlines() or ["?"])[-1][:200]
     print(sid, p, out[p], flush=True)
-    open(f"/tmp/rt3/out/{sid}.{p}.log", "w").write(m.stdout + "\n" + m.stderr)
+    open(f"/tmp/rt_out/{sid}.{p}.log", "w").write(m.stdout + "\n" + m.stderr)
 mp = os.path.join(ROOT, "seeded", sid, "meta.json")
 meta = json.load(open(mp)); meta["first_run"] = out
 if also: meta["also"] = also
